@@ -565,7 +565,7 @@ def main():
             return ("d", "d", "d")
         return tuple(rng.choice(KINDS) for _ in range(3))
 
-    n_el = 60000 if thorough else 18000
+    n_el = 43000 if thorough else 13000      # bases; 40 % bring a one-argument sibling
     el_cases = []       # (fn, kinds, values, extra, realistic)
     for i in range(n_el):
         fn = ("mul", "add", "adv")[i % 3]
@@ -583,6 +583,26 @@ def main():
             vals = [float(np.float32(v)) if k == "s" else v for v, k in zip(vals, ks)]   # the value passed is the value encoded
         extra = {"mul": None, "add": rng.choice([16, 16, 20, 15, 0, 31]), "adv": rng.choice([8, 16, 8, 16, 32])}[fn]
         el_cases.append((fn, ks, vals, extra, not wild))
+        if rng.random() < 0.4:
+            # history: the same call with ONE argument changed (its value, its Python/NumPy type, or the bit-width argument),
+            # evaluated right after its base in this process (the scale streams A/B walk consecutive mantissas and all three
+            # argument types per mantissa, so they contain such neighbours by construction; this stream did not)
+            ks2, vals2, extra2 = list(ks), list(vals), extra
+            f = rng.choice(["value", "type", "extra"] if extra is not None else ["value", "type"])
+            j = rng.randrange(3)
+            if f == "value":
+                v = vals[j]
+                v2 = (float(np.nextafter(np.float32(v), np.float32(4.0))) if ks[j] == "s" else math.nextafter(v, 4.0)) if rng.random() < 0.5 \
+                    else (rand_scale32() if not wild else rand_wild())
+                vals2[j] = float(np.float32(v2)) if ks[j] == "s" else v2
+            elif f == "type":
+                ks2[j] = rng.choice([k for k in KINDS if k != ks[j]])
+                vals2[j] = float(np.float32(vals[j])) if ks2[j] == "s" else vals[j]
+            else:
+                extra2 = rng.choice([x for x in ((16, 20, 15, 0, 31) if fn == "add" else (8, 16, 32)) if x != extra])
+            if (tuple(ks2), vals2, extra2) != (tuple(ks), list(vals), extra):
+                el_cases.append((fn, tuple(ks2), vals2, extra2, not wild))
+                ck.count("C_sibling_" + f)
 
     def call_el(fn, ks, vals, extra):
         args = [typed(np, k, v) for k, v in zip(ks, vals)]
